@@ -93,6 +93,13 @@ def series(it, col, dropped=False, lengths=False):
 
     def extreme(kind):
         def m(it2, self):
+            # an object-dtype column (strings, date or bool objects) that still holds its nulls cannot be ordered:
+            # pandas compares the objects with the NaN standing for the null (TypeError, or a meaningless result)
+            od = col.attrs['object_dtype']
+            if not lengths and not dropped and (od if isinstance(od, bool) else it2.branch(od.z)) \
+                    and it2.branch(z['n0'] > 0) and it2.branch(z['nn'] > 0):
+                from pyvc.ops import PyExc
+                raise PyExc('TypeError', "'<=' not supported between a value and the float standing for a null")
             v = sort_val()
             _quant_facts(it2, col, v, kind, of_lengths=lengths)
             return scalar(it2, col, v, of_lengths=lengths)
@@ -122,6 +129,10 @@ def _calc_view(it, ttypes=None):
     rc = extract.load_module('tdda/constraints/pd/constraints.py').classes['PandasConstraintCalculator']
     col = make_col(it, 'col', exists=True, **({'ttypes': ttypes} if ttypes else {}))
     colname = it.fresh_str('colname')
+    # the dtype is `object` for strings, never for int / real columns, and possibly for dates and booleans
+    # (datetime.date objects, booleans with None)
+    t = col.attrs['ttype']
+    col.attrs['object_dtype'] = True if t == 'string' else (False if t in ('int', 'real') else it.fresh(T.bool, 'object_dtype'))
     df = SObj('DataFrame', {'__open__': False, '__len__': SInt(col.z['N'])}, label='df')
 
     def getitem(it2, self, k):
@@ -137,7 +148,7 @@ def _calc_view(it, ttypes=None):
 # assumed helpers of the pandas module (A-pandas level)
 def _is_string_col_effect(it, env):
     s = env['col']
-    return s.attrs['col'].attrs['ttype'] == 'string'
+    return s.attrs['col'].attrs['object_dtype']        # pandas is_string_dtype: true of every object-dtype column
 
 
 def _tdda_type_effect(it, env):
@@ -154,7 +165,7 @@ def _tdda_type_effect(it, env):
 def _register():
     c = Contract('tdda/pd/utils.py::is_string_col', params=dict(col=None), effects=_is_string_col_effect, result=T.none,
                  assumed=True, name='is_string_col',
-                 trusted_note='is_string_col(series) says whether the column holds strings (dtype table audited by the bounded layer)')
+                 trusted_note='is_string_col(series) is pandas is_string_dtype: true of object-dtype columns (strings, but also date and bool objects)')
     REGISTRY[c.ident] = c
     c = Contract(PD + 'pandas_tdda_type', params=dict(x=None), effects=_tdda_type_effect, result=T.none, assumed=True,
                  name='pandas_tdda_type',
@@ -220,3 +231,19 @@ for _name, _bound, _label in (('calc_min_length', '>=', 'lower-bound'), ('calc_m
               result=T.none, ttypes=('string',))
 
 
+
+
+# at call sites (one calculator method calling another): the type question has a direct answer; the extreme-value
+# methods are not used through their contracts (their result type depends on the column) -- a caller that does so is
+# outside the modelled subset, not a vacuous path
+REGISTRY[CALC + 'calc_tdda_type'].effects = lambda it, env: env['self'].attrs['col'].attrs['ttype']
+
+
+def _not_at_call_sites(name):
+    def eff(it, env):
+        raise Unsupported('%s used through its contract at a call site' % name)
+    return eff
+
+
+for _n in ('calc_min', 'calc_max', 'calc_min_length', 'calc_max_length'):
+    REGISTRY[CALC + _n].effects = _not_at_call_sites(_n)
